@@ -792,3 +792,176 @@ Proof.
   destruct (entry1 defs L r HR id2 _ Hl2) as (t2 & Hr2 & He2). rewrite Hp2 in He2.
   exact (teq_instantiations1 defs L r HR d sd Hsd Hok args1 args2 Hcf1 Hcf2 id1 id2 l1 l2 t1 t2 Hl1 Hl2 Hp1 Hp2 He1 He2 Hr1 Hr2).
 Qed.
+
+(** ** generation does not fail with DuplicateTypePath on REAL program registries of the fragment *)
+Section ProgramGenerates1.
+  Variable defs : list sdef.
+  Variable L : N -> option src.
+  Variable r : registry.
+  Variable s : settings.
+  Hypothesis HR : RegistryOf1 defs L r.
+  Hypothesis Hids : ids_consistent r = true.
+  Hypothesis Hdefs : forall sd, In sd defs -> teq_program_okb sd = true /\ forall lsb, sd_path sd <> order_path_of lsb.
+  Hypothesis Hpaths : forall d1 d2 sd1 sd2,
+    nth_error defs d1 = Some sd1 -> nth_error defs d2 = Some sd2 -> sd_path sd1 = sd_path sd2 -> d1 = d2.
+  Hypothesis Hinst : forall id c d args sd,
+    L id = Some c -> peel1 c = SApp d args -> nth_error defs d = Some sd ->
+    instantiation_cf1 defs sd args = true.
+
+  Lemma eligible_label1 id X :
+    In (id, X) r -> item_eligible s X = true ->
+    resolve r id = Some X /\
+    ((exists c d args sd, L id = Some c /\ peel1 c = SApp d args /\ nth_error defs d = Some sd /\ t_path X = sd_path sd) \/
+     (exists lsb, order_marker lsb X)).
+  Proof.
+    intros Hin Hel. pose proof (ids_consistent_In r id X Hids Hin) as Hres. split; [exact Hres|].
+    destruct HR as (H1 & H2 & _). destruct (L id) as [c|] eqn:El.
+    - left. destruct (H1 _ _ El) as (_ & t & Hr & He). rewrite Hres in Hr. inversion Hr; subst t.
+      unfold entry_of1 in He.
+      destruct (entry_eligible1 defs L r s _ X He Hel) as (d & args & Ec). rewrite Ec in He.
+      cbn [content_of1] in He. destruct He as (sd & Hsd & Hp & _). exists c, d, args, sd. auto.
+    - right. exact (H2 _ _ Hres El).
+  Qed.
+
+  Theorem program_comparisons_equal1 :
+    Forall (fun c : cmp => types_equal r (fst (fst c)) (snd (fst c)) = Ok true) (comparisons r s).
+  Proof.
+    apply Forall_forall. intros [[id id0] p] Hc. cbn [fst snd].
+    destruct (cmps_spec s r [] id id0 p Hc) as (X & X0 & Hin & Hel & _ & Hin0 & Hel0 & Hp). cbn [app] in Hin0.
+    destruct (eligible_label1 id X Hin Hel) as (Hres & [(c & d & args & sd & Hl & Hc1 & Hsd & Hpx)|(lsb & Hm)]);
+      destruct (eligible_label1 id0 X0 Hin0 Hel0) as (Hres0 & [(c0 & d0 & args0 & sd0 & Hl0 & Hc0 & Hsd0 & Hpx0)|(lsb0 & Hm0)]).
+    - assert (d0 = d) by (apply (Hpaths d0 d sd0 sd Hsd0 Hsd); congruence). subst d0.
+      assert (sd0 = sd) by congruence. subst sd0.
+      destruct (Hdefs sd (nth_error_In _ _ Hsd)) as (Hok & _).
+      pose proof (Hinst id c d args sd Hl Hc1 Hsd) as Hcf. pose proof (Hinst id0 c0 d args0 sd Hl0 Hc0 Hsd) as Hcf0.
+      exact (teq_instantiations_labels1 defs L r HR d sd Hsd Hok args args0 Hcf Hcf0 id id0 c c0 Hl Hl0 Hc1 Hc0).
+    - exfalso. destruct Hm0 as (Hpm & _). destruct (Hdefs sd (nth_error_In _ _ Hsd)) as (_ & Hno).
+      apply (Hno lsb0). unfold order_path_of. congruence.
+    - exfalso. destruct Hm as (Hpm & _). destruct (Hdefs sd0 (nth_error_In _ _ Hsd0)) as (_ & Hno).
+      apply (Hno lsb). unfold order_path_of. congruence.
+    - apply (marker_teq r id id0 X X0 lsb lsb0); auto.
+  Qed.
+
+  (** ... hence generation succeeds whenever nothing else fails ([all_ok], Proofs/KeepFirst.v) *)
+  Theorem program_generates1 flat :
+    flatten (s_dreg s) r = Ok flat -> all_ok r s flat r -> exists m, generate r s (types_equal r) = Ok m.
+  Proof.
+    intros Hf Hok. apply (generate_ok_iff r s (types_equal r) flat); [|exact Hf|exact Hok|exact program_comparisons_equal1].
+    rewrite sanity_pass_spec. apply first_bad_none_iff in Hids. rewrite Hids. reflexivity.
+  Qed.
+End ProgramGenerates1.
+
+(** ** [ensure_unique_type_paths] leaves REAL program registries of the fragment untouched *)
+Section ProgramDedup1.
+  Variable defs : list sdef.
+  Variable L : N -> option src.
+  Variable r : registry.
+  Hypothesis HR : RegistryOf1 defs L r.
+  Hypothesis Hids : ids_consistent r = true.
+  Hypothesis Hdefs : forall sd, In sd defs -> teq_program_okb sd = true /\ forall lsb, sd_path sd <> order_path_of lsb.
+  Hypothesis Hpaths : forall d1 d2 sd1 sd2,
+    nth_error defs d1 = Some sd1 -> nth_error defs d2 = Some sd2 -> sd_path sd1 = sd_path sd2 -> d1 = d2.
+  Hypothesis Hinst : forall id c d args sd,
+    L id = Some c -> peel1 c = SApp d args -> nth_error defs d = Some sd ->
+    instantiation_cf1 defs sd args = true.
+
+  Lemma entry_namespaced1 c X : content_of1 defs L r c X -> namespace (t_path X) <> [] -> exists d args, c = SApp d args.
+  Proof.
+    intros He Hns. destruct c; cbn [content_of1] in He.
+    - destruct He.
+    - eauto.
+    - destruct He as (e & (Hp & _) & _). rewrite Hp in Hns. cbn [namespace removelast] in Hns. congruence.
+    - destruct He.
+    - destruct He as (e & (Hp & _) & _). rewrite Hp in Hns. cbn [namespace removelast] in Hns. congruence.
+    - destruct He as (e & (Hp & _) & _). rewrite Hp in Hns. cbn [namespace removelast] in Hns. congruence.
+    - destruct He as (Hp & _). rewrite Hp in Hns. cbn [namespace removelast] in Hns. congruence.
+    - destruct He as (e & (Hp & _) & _). rewrite Hp in Hns. cbn [namespace removelast] in Hns. congruence.
+    - destruct He.
+    - destruct He as (e & _ & Hp & _). rewrite Hp in Hns. cbn [namespace removelast] in Hns. congruence.
+    - destruct He as (x & y & _ & _ & Hp & _). rewrite Hp in Hns. cbn [namespace removelast] in Hns. congruence.
+    - destruct He as (ik & iv & iseq & _ & _ & _ & Hp & _). rewrite Hp in Hns. cbn [namespace removelast] in Hns. congruence.
+    - destruct He as (e & iseq & _ & _ & Hp & _). rewrite Hp in Hns. cbn [namespace removelast] in Hns. congruence.
+    - destruct He as (e & _ & Hp & _). rewrite Hp in Hns. cbn [namespace removelast] in Hns. congruence.
+    - destruct He as (e & _ & Hp & _). rewrite Hp in Hns. cbn [namespace removelast] in Hns. congruence.
+    - destruct He as (ist & io & ot & (Hp & _) & _). rewrite Hp in Hns. cbn [namespace removelast] in Hns. congruence.
+  Qed.
+
+  Lemma namespaced_label1 a X :
+    resolve r a = Some X -> namespace (t_path X) <> [] ->
+    (exists c d args sd, L a = Some c /\ peel1 c = SApp d args /\ nth_error defs d = Some sd /\ t_path X = sd_path sd) \/
+    (exists lsb, order_marker lsb X).
+  Proof.
+    intros Hres Hns. destruct HR as (H1 & H2 & _). destruct (L a) as [c|] eqn:El.
+    - left. destruct (H1 _ _ El) as (_ & t & Hr & He). rewrite Hres in Hr. inversion Hr; subst t.
+      unfold entry_of1 in He.
+      destruct (entry_namespaced1 _ X He Hns) as (d & args & Ec). rewrite Ec in He.
+      cbn [content_of1] in He. destruct He as (sd & Hsd & Hp & _). exists c, d, args, sd. auto.
+    - right. exact (H2 _ _ Hres El).
+  Qed.
+
+  Lemma namespaced_equal1 a b X X0 :
+    resolve r a = Some X -> resolve r b = Some X0 -> namespace (t_path X) <> [] -> t_path X0 = t_path X ->
+    types_equal_res r a b = Ok true.
+  Proof.
+    intros Ha Hb Hns Hp. assert (Hns0 : namespace (t_path X0) <> []) by (rewrite Hp; exact Hns).
+    destruct (namespaced_label1 a X Ha Hns) as [(c & d & args & sd & Hl & Hc & Hsd & Hpx)|(lsb & Hm)];
+      destruct (namespaced_label1 b X0 Hb Hns0) as [(c0 & d0 & args0 & sd0 & Hl0 & Hc0 & Hsd0 & Hpx0)|(lsb0 & Hm0)].
+    - assert (d0 = d) by (apply (Hpaths d0 d sd0 sd Hsd0 Hsd); congruence). subst d0.
+      assert (sd0 = sd) by congruence. subst sd0.
+      destruct (Hdefs sd (nth_error_In _ _ Hsd)) as (Hok & _).
+      pose proof (Hinst a c d args sd Hl Hc Hsd) as Hcf. pose proof (Hinst b c0 d args0 sd Hl0 Hc0 Hsd) as Hcf0.
+      exact (teq_instantiations_labels1 defs L r HR d sd Hsd Hok args args0 Hcf Hcf0 a b c c0 Hl Hl0 Hc Hc0).
+    - exfalso. destruct Hm0 as (Hpm & _). destruct (Hdefs sd (nth_error_In _ _ Hsd)) as (_ & Hno).
+      apply (Hno lsb0). unfold order_path_of. congruence.
+    - exfalso. destruct Hm as (Hpm & _). destruct (Hdefs sd0 (nth_error_In _ _ Hsd0)) as (_ & Hno).
+      apply (Hno lsb). unfold order_path_of. congruence.
+    - apply (marker_teq r a b X X0 lsb lsb0); auto.
+  Qed.
+
+  Lemma groups_add_inv1 idx t : forall m,
+    Gm r m -> resolve r idx = Some t -> namespace (t_path t) <> [] ->
+    exists m', groups_add r m (t_path t) idx = Ok m' /\ Gm r m'.
+  Proof.
+    intros m HG Hres Hns. induction m as [|[k gs] m IH].
+    - cbn [groups_add]. eexists. split; [reflexivity|]. intros k gs [E|[]]. inversion E; subst.
+      exists idx, []. split; [reflexivity|]. split; [exact Hns|]. intros i [<-|[]]. eauto.
+    - cbn [groups_add]. destruct (path_eqb k (t_path t)) eqn:Ek.
+      + apply path_eqb_eq in Ek. subst k.
+        destruct (HG _ _ (or_introl eq_refl)) as (other & g & -> & _ & Hmem).
+        cbn [add_to_groups]. destruct (Hmem other (or_introl eq_refl)) as (t0 & Hr0 & Hp0).
+        rewrite (namespaced_equal1 idx other t t0 Hres Hr0 Hns Hp0). cbn [bind].
+        eexists. split; [reflexivity|]. intros k gs [E|Hin].
+        * inversion E; subst. exists other, (g ++ [idx]). split; [reflexivity|]. split; [exact Hns|].
+          intros i Hi. change (In i ((other :: g) ++ [idx])) in Hi. apply in_app_or in Hi as [Hi|[<-|[]]]; eauto.
+        * apply HG. right. exact Hin.
+      + destruct IH as (m' & Hm' & HG'). { intros k' gs' Hin. apply HG. right. exact Hin. }
+        rewrite Hm'. cbn [bind]. eexists. split; [reflexivity|]. intros k' gs' [E|Hin].
+        * inversion E; subst. apply HG. left. reflexivity.
+        * apply HG'. exact Hin.
+  Qed.
+
+  Lemma bg_go_inv1 : forall l pre m,
+    r = pre ++ l -> Gm r m -> exists m', bg_go r (N.of_nat (List.length pre)) l m = Ok m' /\ Gm r m'.
+  Proof.
+    induction l as [|[i t] l IH]; intros pre m Hr HG; [exists m; split; [reflexivity|exact HG]|].
+    cbn [bg_go].
+    assert (Hres : resolve r (N.of_nat (List.length pre)) = Some t).
+    { unfold resolve. rewrite Nat2N.id, Hr, nth_error_app2, Nat.sub_diag by apply le_n. reflexivity. }
+    assert (Hnext : (N.of_nat (List.length pre) + 1)%N = N.of_nat (List.length (pre ++ [(i, t)]))).
+    { rewrite app_length. cbn [List.length]. lia. }
+    assert (Hr' : r = (pre ++ [(i, t)]) ++ l) by (rewrite <- app_assoc; exact Hr).
+    destruct (namespace (t_path t)) as [|n0 ns] eqn:Ens.
+    - rewrite Hnext. apply IH; assumption.
+    - destruct (groups_add_inv1 _ t m HG Hres) as (m' & Hm' & HG'); [rewrite Ens; discriminate|].
+      rewrite Hm'. cbn [bind]. rewrite Hnext. apply IH; assumption.
+  Qed.
+
+  Theorem program_dedup_untouched1 : ensure_unique r = Ok r.
+  Proof.
+    rewrite ensure_unique_unfold, dedup_sanity_spec. apply first_bad_none_iff in Hids. rewrite Hids. cbn [bind].
+    rewrite build_groups_go.
+    destruct (bg_go_inv1 r [] [] eq_refl) as (m & Hm & HG). { intros k gs []. }
+    cbn [List.length N.of_nat] in Hm. rewrite Hm. cbn [bind]. f_equal. apply rename_pass_id.
+    intros i. apply suffix_for_single. intros p gs Hin. destruct (HG _ _ Hin) as (other & g & -> & _). apply le_n.
+  Qed.
+End ProgramDedup1.
